@@ -823,3 +823,30 @@ pub fn without_epb_use(spec: &mut Spec, r: &mut Rng) {
         spec.lines.push(Line::Prod { id: 0, src: "EL_INSITU".into(), v: vec![10.0; spec.n], comment: String::new() });
     }
 }
+
+/// Plant the documented non-computable DHW shape several times over: two or three *new* systems burn the same
+/// kind of biomass for DHW next to a non-nearby carrier, none of them declares its DHW output, and a DHW demand
+/// exists. The indicator must then be an error - the same error (text included, it is saved in the JSON and
+/// printed in the report) on every run, whichever of the offending systems a hash set yields first.
+pub fn plant_undeclared_biomass_dhw(spec: &mut Spec, r: &mut Rng) {
+    let bio = *r.pick(&["BIOMASA", "BIOMASADENSIFICADA"]);
+    let n = spec.n;
+    let mut used: Vec<i32> = spec.lines.iter().filter_map(|l| l.id()).collect();
+    let k = 2 + r.usize(2);
+    for _ in 0..k {
+        let mut id = 40 + r.below(50) as i32;
+        while used.contains(&id) {
+            id += 1;
+        }
+        used.push(id);
+        let v: Vec<f32> = (0..n).map(|_| (1 + r.below(400)) as f32 / 8.0).collect();
+        spec.lines.push(Line::Used { id, srv: "ACS".into(), cr: bio.into(), v, comment: String::new() });
+    }
+    let v: Vec<f32> = (0..n).map(|_| (1 + r.below(400)) as f32 / 8.0).collect();
+    spec.lines.push(Line::Used { id: used[used.len() - 1], srv: "ACS".into(), cr: (*r.pick(&["GASNATURAL", "GASOLEO", "GLP"])).into(), v, comment: String::new() });
+    if !spec.lines.iter().any(|l| matches!(l, Line::Need { srv, .. } if srv == "ACS")) {
+        let v: Vec<f32> = (0..n).map(|_| (8 + r.below(800)) as f32 / 8.0).collect();
+        spec.lines.push(Line::Need { srv: "ACS".into(), v });
+    }
+    r.shuffle(&mut spec.lines);
+}
